@@ -102,6 +102,8 @@ def gen_reps(rng, nrep=None):
         n = rng.randint(12, 30)
         dm = rng.choice([1, 1, 2, 4, 10])
         first = rng.choice([1, 1, 2, 7, 30]) * dm
+        if rng.random() < 0.15:
+            first = rng.choice([0, dm // 2])      # first trajectory below the spacing: the stored configuration numbers start at 0
         reps[r] = [first + i * dm for i in range(n)]
     return reps
 
